@@ -48,6 +48,7 @@ m = {
 }
 for pid in sorted(checks):
     level, engine, technique, text, ref = checks[pid]
+    text = extra.get('texts', {}).get(pid, text)
     m["checks"].append({
       "property_id": pid,
       "quick_cmd": f"./check {pid} --tier quick",
